@@ -1,0 +1,53 @@
+//go:build verif
+
+package appencryption
+
+import (
+	"fmt"
+	"sync/atomic"
+)
+
+// VerifKeyInfo describes a cached key at a hook point.
+type VerifKeyInfo struct {
+	Ptr     string
+	Refs    int64
+	Created int64
+	Revoked bool
+}
+
+// VerifHookFunc receives the name of a hook point and a description of its argument.
+// It may block; hook points are only placed where the calling goroutine holds no SDK lock,
+// unless the point name ends in ".locked".
+type VerifHookFunc func(point string, arg any)
+
+var verifHookFn atomic.Pointer[VerifHookFunc]
+
+// VerifSetHook installs fn as the process-wide verification hook (nil removes it).
+func VerifSetHook(fn VerifHookFunc) {
+	if fn == nil {
+		verifHookFn.Store(nil)
+		return
+	}
+
+	verifHookFn.Store(&fn)
+}
+
+func verifHook(point string, arg any) {
+	fn := verifHookFn.Load()
+	if fn == nil {
+		return
+	}
+
+	switch v := arg.(type) {
+	case *cachedCryptoKey:
+		if v != nil {
+			arg = VerifKeyInfo{Ptr: fmt.Sprintf("%p", v.CryptoKey), Refs: v.refs.Load(), Created: v.Created(), Revoked: v.Revoked()}
+		}
+	case *envelopeEncryption:
+		arg = fmt.Sprintf("%p", v)
+	case *sharedEncryption:
+		arg = fmt.Sprintf("%p", v.Encryption)
+	}
+
+	(*fn)(point, arg)
+}
